@@ -121,6 +121,19 @@ func checkC04(c c04Case) error {
 	switch c.Mode {
 	case "constructed":
 		h = cose.Headers{Protected: bridge.ToProtected(pm), Unprotected: cose.UnprotectedHeader{}}
+	case "re-decoded":
+		// a Headers value that held another message before is re-used through the public
+		// UnmarshalFromRaw: what counts is the protected header decoded last
+		prior := rc.Map(rc.E(rc.Int(1), rc.Int(c.SignerAlg)), rc.E(rc.Int(4), rc.Bytes([]byte("prior"))))
+		h = cose.Headers{RawProtected: protBstr(prior), RawUnprotected: []byte{0xa0}}
+		if err := h.UnmarshalFromRaw(); err != nil {
+			return fmt.Errorf("harness: prior headers do not decode: %v", err)
+		}
+		h.RawProtected, h.RawUnprotected = protBstr(pm), []byte{0xa0}
+		if err := h.UnmarshalFromRaw(); err != nil {
+			stats.Class("skipped/undecodable-header")
+			return nil
+		}
 	case "raw+map", "raw-only", "decoded":
 		wireMap := pm
 		raw := protBstr(wireMap)
@@ -392,7 +405,7 @@ func TestC04_Grid(t *testing.T) {
 	structs := []string{"Sign1", "Untagged", "Signature", "Countersignature", "HashEnvelope"}
 	signerAlgs := []int64{-7, -8, -37, -65537, 7}
 	for _, st := range structs {
-		for _, mode := range []string{"constructed", "decoded", "raw+map", "raw-only"} {
+		for _, mode := range []string{"constructed", "decoded", "raw+map", "raw-only", "re-decoded"} {
 			for _, op := range []string{"sign", "verify"} {
 				if mode == "decoded" && op == "sign" {
 					continue
@@ -429,7 +442,7 @@ func TestC04_Random(t *testing.T) {
 	prop(t, func(rt *rapid.T) {
 		c := c04Case{
 			Struct:    rapid.SampledFrom([]string{"Sign1", "Untagged", "Signature", "Countersignature", "HashEnvelope"}).Draw(rt, "struct"),
-			Mode:      rapid.SampledFrom([]string{"constructed", "constructed", "decoded", "raw+map"}).Draw(rt, "mode"),
+			Mode:      rapid.SampledFrom([]string{"constructed", "constructed", "decoded", "raw+map", "re-decoded"}).Draw(rt, "mode"),
 			Op:        rapid.SampledFrom([]string{"sign", "verify"}).Draw(rt, "op"),
 			SignerAlg: rapid.SampledFrom([]int64{-7, -8, -35, -36, -37, -38, -39, -65537, 7, 1 << 40}).Draw(rt, "signer-alg"),
 			Ext:       rapid.IntRange(0, 2).Draw(rt, "ext"),
